@@ -20,7 +20,8 @@ QInit(sc) ==
       lastm |-> [c \in 1..Len(sc.conns) |-> -1],
       \* virtual time only (D1): the instants at which anything was recorded, the current instant, and
       \* whether something other than unblock calls and empty-handed returns happened at it
-      inst  |-> {}, cur |-> -1, mud |-> FALSE ]
+      inst  |-> {}, cur |-> -1, mud |-> FALSE,
+      ulate |-> FALSE ]      \* a pending unblock token with a blocked receiver has already been reported
 
 Blocked(s) == {t \in DOMAIN s.call : s.call[t].in}
 AnyBlocked(s) == Blocked(s) # {}
@@ -88,5 +89,14 @@ QStep0(s, sc, e) ==
       [] e.ev = "Quiescent" -> Quiescent(s, sc, e)
       [] OTHER -> [s |-> s, v |-> <<>>]
 
-QStep(s, sc, e) == LET r == QStep0(s, sc, e) IN [s |-> Track(r.s, e), v |-> r.v]
+\* C17 on the virtual clock: the clock only moves when every thread is blocked, so it never moves while an unblock()
+\* that has released nobody yet is pending and some receive call that can block is in progress
+Advancing(s, sc, e) == sc.drv = "d1" /\ e.ev # "mark" /\ "now" \in DOMAIN e /\ s.cur >= 0 /\ e.now > s.cur
+TokenIgnored(s) == s.unb - s.empt > 0 /\ \E t \in Blocked(s) : s.call[t].kind \in {"recv", "iter", "timeout"}
+
+QStep(s, sc, e) ==
+    LET late == Advancing(s, sc, e) /\ TokenIgnored(s) /\ ~s.ulate
+        s0 == IF late THEN [s EXCEPT !.ulate = TRUE] ELSE s
+        r == QStep0(s0, sc, e)
+    IN [s |-> Track(r.s, e), v |-> V(~late, "C17", "UnblockDidNotRelease") \o r.v]
 =============================================================================
